@@ -810,6 +810,11 @@ func (l *LineWrapper) WrapParagraph(config WrapConfig, maxWidth int, paragraph [
 			_, _, hasSecond := runs.Peek()
 			if hasFirst && !hasSecond {
 				if firstRun.Advance.Ceil() <= maxWidth {
+					// this line is not built by WrapNextLine: post-process it the same way
+					firstRun.VisualIndex = 0
+					if !config.DisableTrailingWhitespaceTrim {
+						firstRun.trimTrailingWhitespace(config.Direction)
+					}
 					return l.scratch.singleRunParagraph(firstRun), 0
 				}
 			}
@@ -918,6 +923,30 @@ func computeBidiOrdering(dir di.Direction, finalLine Line) {
 	}
 }
 
+// trimTrailingWhitespace locates the first/last visual glyph of the run, which must be the last
+// visual run of its line, and zeroes its advance if it is whitespace.
+func (finalVisualRun *Output) trimTrailingWhitespace(paragraphDirection di.Direction) {
+	var finalVisualGlyph *Glyph
+	if L := len(finalVisualRun.Glyphs); L > 0 {
+		if paragraphDirection.Progression() == di.FromTopLeft {
+			finalVisualGlyph = &finalVisualRun.Glyphs[L-1]
+		} else {
+			finalVisualGlyph = &finalVisualRun.Glyphs[0]
+		}
+
+		if finalVisualRun.Direction.IsVertical() {
+			if finalVisualGlyph.Height == 0 {
+				finalVisualGlyph.YAdvance = 0
+			}
+		} else { // horizontal
+			if finalVisualGlyph.Width == 0 {
+				finalVisualGlyph.XAdvance = 0
+			}
+		}
+		finalVisualRun.RecomputeAdvance()
+	}
+}
+
 func (l *LineWrapper) postProcessLine(finalLine Line, done bool) (WrappedLine, bool) {
 	if len(finalLine) > 0 {
 		computeBidiOrdering(l.config.Direction, finalLine)
@@ -933,28 +962,7 @@ func (l *LineWrapper) postProcessLine(finalLine Line, done bool) (WrappedLine, b
 					break
 				}
 			}
-			// This next block locates the first/last visual glyph on the line and
-			// zeroes its advance if it is whitespace.
-			finalVisualRun := &finalLine[goalIdx]
-			var finalVisualGlyph *Glyph
-			if L := len(finalVisualRun.Glyphs); L > 0 {
-				if l.config.Direction.Progression() == di.FromTopLeft {
-					finalVisualGlyph = &finalVisualRun.Glyphs[L-1]
-				} else {
-					finalVisualGlyph = &finalVisualRun.Glyphs[0]
-				}
-
-				if finalVisualRun.Direction.IsVertical() {
-					if finalVisualGlyph.Height == 0 {
-						finalVisualGlyph.YAdvance = 0
-					}
-				} else { // horizontal
-					if finalVisualGlyph.Width == 0 {
-						finalVisualGlyph.XAdvance = 0
-					}
-				}
-				finalVisualRun.RecomputeAdvance()
-			}
+			finalLine[goalIdx].trimTrailingWhitespace(l.config.Direction)
 		}
 
 		finalLogicalRun := finalLine[len(finalLine)-1]
